@@ -36,6 +36,8 @@ def default_post(C, fname, label, outs, log):
 
 
 def _work(task):
+    if isinstance(task, int):
+        task = _G['tasks'][task]
     fname, label, opts = task
     t0 = time.time()
     try:
@@ -74,6 +76,7 @@ def run(mod, tasks, hooks_cls=LibHooks, post=None, jobs=None):
     _G['mod'] = mod
     _G['hooks_cls'] = hooks_cls
     _G['post'] = post
+    _G['tasks'] = tasks
     jobs = jobs or min(16, os.cpu_count() or 4)
     sys.setrecursionlimit(20000)
     if jobs == 1 or len(tasks) == 1:
@@ -82,7 +85,7 @@ def run(mod, tasks, hooks_cls=LibHooks, post=None, jobs=None):
     with ctx.Pool(jobs) as pool:
         # heavy tasks first for better packing
         order = sorted(range(len(tasks)), key=lambda i: -tasks[i][2].get('weight', 1))
-        res = pool.map(_work, [tasks[i] for i in order], chunksize=1)
+        res = pool.map(_work, order, chunksize=1)
     out = [None] * len(tasks)
     for i, r in zip(order, res):
         out[i] = r
